@@ -276,10 +276,10 @@ pub fn run(ctx: &mut Ctx) {
     let quick = ctx.quick();
     let sigma_n = ctx.tier.pick(4, 5);
     let max_comp_len = ctx.tier.pick(11, 13);
-    ctx.meta("rule", "cases: (input, configuration, read schedule); inputs = Σ* up to length n, documents of T∘E, their truncations at every byte and single-byte corruptions, two documents > 64 KiB; for inputs up to the composition bound ALL 2^(len-1) compositions into read() results x 14 capacities (0,1,2,3,4,7,8,15,16,17,len-1,len,len+1,default); longer inputs: schedules with <= 2 short reads and uniform short reads (every read 1,2,3,5,7,11,13 bytes) x capacities; documents with 16-byte headers (8-byte ids, 8-byte size fields, known and unknown ids) and all their truncations; three documents > 64 KiB (large payload, many small elements, long headers across the buffer boundary); with end-of-stream closing off: a temporary end of file (the source answers Ok(0) until the caller has seen None, then resumes) at every subset of (up to 8) tag boundaries incl. before the first byte x {default, 16, chunk 3, capacity 0 with 1-byte reads}. Oracle: differential - items, offsets and the first error (all fields) equal the slice parse of the same bytes and configuration. Non-trivial: schedules with >= 1 short read or pause.");
+    ctx.meta("rule", "cases: (input, configuration, read schedule); inputs = Σ* up to length n, documents of T∘E, their truncations at every byte and single-byte corruptions, the documents again under size limits of 1 and 3 bytes (the size error fires mid-document), two documents > 64 KiB; for inputs up to the composition bound ALL 2^(len-1) compositions into read() results x 14 capacities (0,1,2,3,4,7,8,15,16,17,len-1,len,len+1,default); longer inputs: schedules with <= 2 short reads and uniform short reads (every read 1,2,3,5,7,11,13 bytes) x capacities; documents with 16-byte headers (8-byte ids, 8-byte size fields, known and unknown ids) and all their truncations; three documents > 64 KiB (large payload, many small elements, long headers across the buffer boundary); with end-of-stream closing off: a temporary end of file (the source answers Ok(0) until the caller has seen None, then resumes) at every subset of (up to 8) tag boundaries incl. before the first byte x {default, 16, chunk 3, capacity 0 with 1-byte reads}. Oracle: differential - items, offsets and the first error (all fields) equal the slice parse of the same bytes and configuration. Non-trivial: schedules with >= 1 short read or pause.");
     ctx.meta("bounds", &format!("Σ* length <= {}; all compositions for inputs <= {} bytes; <= 2 deviations beyond", sigma_n, max_comp_len));
     ctx.meta("assumptions", "Read implementations that return more than requested or lie about lengths are out of scope");
-    for c in ["pauses_seen_as_none_by_the_caller", "long_header_documents", "first_read_shorter_than_a_header", "capacity_below_16", "input_larger_than_capacity(compaction)", "temporary_eof_pauses", "big_inputs(growth)"] {
+    for c in ["pauses_seen_as_none_by_the_caller", "long_header_documents", "first_read_shorter_than_a_header", "capacity_below_16", "input_larger_than_capacity(compaction)", "temporary_eof_pauses", "big_inputs(growth)", "documents_under_a_small_size_limit"] {
         ctx.expect_nonzero(c);
     }
     let strict = Cfg::strict();
@@ -303,6 +303,13 @@ pub fn run(ctx: &mut Ctx) {
         let (bytes, lay) = ref_encode(doc);
         r.sweep(ctx, &bytes, &strict, "doc", max_comp_len, 2);
         r.sweep(ctx, &bytes, &strict.clone().with_buffered(&all_masters), "doc", max_comp_len.min(9), 1);
+        // a small size limit: the size error (with its position, id and size) fires somewhere inside most documents
+        for lim in [1usize, 3] {
+            let mut lcfg = Cfg::strict();
+            lcfg.max_size = MaxSize::Limit(lim);
+            ctx.count("documents_under_a_small_size_limit", 1);
+            r.sweep(ctx, &bytes, &lcfg, "doc", max_comp_len.min(10), 1);
+        }
         let bounds: Vec<usize> = lay.iter().map(|l| l.tag_start).collect();
         r.pauses(ctx, &bytes, &bounds, "doc");
         if bytes.len() <= 16 || !quick {
